@@ -313,6 +313,14 @@ func discharge(obs []*Obligation, opt solveOpts) {
 		go func(k int, o *Obligation) {
 			defer wg.Done()
 			defer func() { <-sem }()
+			if os.Getenv("GVC_TIMING") != "" {
+				t0 := time.Now()
+				defer func() {
+					if d := time.Since(t0); d > 3*time.Second {
+						fmt.Fprintf(os.Stderr, "  wall %5.1fs (solver %5.1fs) %s\n", d.Seconds(), float64(o.Ms)/1000, o.Name)
+					}
+				}()
+			}
 			file := filepath.Join(opt.dir, fmt.Sprintf("q%05d.smt2", k))
 			if o.formula == "true" && !o.Cover {
 				o.Result, o.Backend = "unsat", "trivial"
@@ -545,6 +553,7 @@ func (o *Obligation) infoValues() map[string]int64 {
 	return out
 }
 
+var nonlinearRe = regexp.MustCompile(`\((div|mod) |\(\* [a-z_(][^ ]* [a-z_(]`)
 var memSymRe = regexp.MustCompile(`^(MI|MR|row|zrow|top|vis)_?[0-9]`)
 var loadDefRe = regexp.MustCompile(`^\(= (ld_[0-9]+) \(select \(select (M[IR]_?[0-9]+) (.+)\)\)$`)
 
@@ -627,6 +636,16 @@ func (o *Obligation) scalarSlice(file string, opt solveOpts, results *[]string) 
 			break
 		}
 	}
+	// the slice is only worth its lemma phase when the goal's cone really multiplies or divides
+	arith := false
+	for i := 0; i < o.pos && !arith; i++ {
+		if keep[i] && nonlinearRe.MatchString(vc.asserts[i]) {
+			arith = true
+		}
+	}
+	if !arith && !nonlinearRe.MatchString(o.formula) {
+		return false
+	}
 	// candidate equalities: same cell, different memory version
 	type ld struct{ name, mem, addr string }
 	groups := map[string][]ld{}
@@ -663,7 +682,7 @@ func (o *Obligation) scalarSlice(file string, opt solveOpts, results *[]string) 
 	var cands []cand
 	for _, k := range order {
 		g := groups[k]
-		for j := 1; j < len(g) && len(cands) < 96; j++ {
+		for j := 1; j < len(g) && len(cands) < 40; j++ {
 			if g[j].mem == g[j-1].mem {
 				lemmas = append(lemmas, fmt.Sprintf("(= %s %s)", g[j-1].name, g[j].name))
 				continue
@@ -687,7 +706,7 @@ func (o *Obligation) scalarSlice(file string, opt solveOpts, results *[]string) 
 			defer func() { <-lsem }()
 			lf := fmt.Sprintf("%s.lemma%d.smt2", file, ci)
 			os.WriteFile(lf, []byte(full[:cut]+fmt.Sprintf("(assert (not (= %s %s)))\n(check-sat)\n", c.a, c.b)), 0o644)
-			r, _, ms := runSolver(solvers[0], lf, 8)
+			r, _, ms := runSolver(solvers[0], lf, 4)
 			os.Remove(lf)
 			lmu.Lock()
 			if ms > lms {
